@@ -14,6 +14,7 @@ import (
 
 	"github.com/carapace-sh/carapace"
 	"github.com/carapace-sh/carapace/pkg/cache/key"
+	"github.com/carapace-sh/carapace/pkg/style"
 	"github.com/spf13/cobra"
 )
 
@@ -258,6 +259,34 @@ func (b *builder) build(x *xExpr) carapace.Action {
 		return b.build(x.E).Suppress(ps...)
 	case "unless":
 		return b.build(x.E).Unless(x.B)
+	case "tagF":
+		// a function that looks at the value: its first character decides
+		return b.build(x.E).TagF(func(s string) string {
+			if s == "" {
+				return "empty"
+			}
+			return "t-" + string([]rune(s)[:1])
+		})
+	case "styleF":
+		return b.build(x.E).StyleF(func(s string, sc style.Context) string {
+			if strings.HasPrefix(s, "a") {
+				return "red"
+			}
+			return "blue"
+		})
+	case "unlessF":
+		t := *x.T
+		return b.build(x.E).UnlessF(func(c carapace.Context) bool {
+			switch t.K {
+			case "partsLen":
+				return len(c.Parts) == t.N
+			case "argsLen":
+				return len(c.Args) == t.N
+			case "valuePrefix":
+				return strings.HasPrefix(c.Value, t.P)
+			}
+			return true
+		})
 	case "shift":
 		return b.build(x.E).Shift(x.N)
 	case "list":
@@ -733,6 +762,14 @@ func genExpr(r *rng, depth int) *xExpr {
 		}
 		return &xExpr{K: "suppress", S: pick(r, []string{"msg", "zzz", "(", "msg a"}), E: inner()}
 	case 12:
+		switch r.intn(4) {
+		case 0:
+			return &xExpr{K: "tagF", E: inner()}
+		case 1:
+			return &xExpr{K: "styleF", E: inner()}
+		case 2:
+			return &xExpr{K: "unlessF", T: &xTest{K: pick(r, []string{"partsLen", "argsLen", "valuePrefix", "always"}), N: r.intn(3), P: pick(r, []string{"", "a", "x"})}, E: inner()}
+		}
 		return &xExpr{K: "unless", B: r.chance(40), E: inner()}
 	case 13:
 		return &xExpr{K: "shift", N: r.intn(4) - 1, E: inner()}
